@@ -113,6 +113,12 @@ def main(argv):
         print('replay: the recorded violation did not recur (%d other)' % len(ctx.violations))
         return 0
     shard = nshards = None
+    cov = None
+    if os.environ.get('KV_COVERAGE'):      # development aid (tools/coverage.sh): which lines of kmip/ the workloads reach
+        import coverage
+        cov = coverage.Coverage(data_file=os.path.join(os.environ['KV_COVERAGE'], '.coverage'), data_suffix=True,
+                                source_pkgs=['kmip'], omit=['*/kmip/tests/*', '*/kmip/demos/*'])
+        cov.start()
     i = argv.index('--shard')
     shard, nshards = int(argv[i + 1]), int(argv[i + 2])
     out = argv[argv.index('--out') + 1]
@@ -142,6 +148,9 @@ def main(argv):
             mod.finish(ctx)
     except Exception as e:
         ctx.unsure('harness error: %s: %s | %s' % (type(e).__name__, e, traceback.format_exc()[-1500:]))
+    if cov is not None:
+        cov.stop()
+        cov.save()
     rep = ctx.report(ran, skipped)
     with open(out + '.tmp', 'w') as f:
         json.dump(rep, f, default=str)
